@@ -132,7 +132,7 @@ func (c *Client[Req, Res]) CallServerStream(ctx context.Context, request *Reques
 		return nil, c.callErr()
 	}
 	conn := c.newConn(ctx, StreamTypeServer)
-	mergeHeaders(conn.RequestHeader(), request.header)
+	mergeMetadata(conn.RequestHeader(), request.header)
 	// Send always returns an io.EOF unless the error is from the client-side.
 	// We want the user to continue to call Receive in those cases to get the
 	// full error from the server-side.
